@@ -274,6 +274,21 @@ def rule_int_overflow(P):
             R.ok(iid, where(f, br[0].line))
         else:
             R.fail(iid, where(f), Finding(R.rule, f["file"], f["q"], bound + "-direction", "range comparison against %s has the wrong direction/strictness" % bound, f["line"]))
+    # the quantity compared is the stored (long) value itself, not a copy already narrowed to the handle type
+    for bound in ("intMin", "intMax"):
+        br = [n for n in g.nodes if n.kind == "branch" and n.cond and (M + "terminal::" + bound) in n.cond["calls"] and n.cond.get("op") in ("<", ">", "<=", ">=")]
+        iid = "getIntegerHandle: the %s test reads the full-width value t_integer" % bound
+        ok = bool(br)
+        for n in br:
+            side = n.cond["l"] if bound in " ".join(n.cond["r"]["refs"]) else n.cond["r"]
+            vals = [x for x in side["refs"] if x not in ("this", "")]
+            if vals != ["t_integer"]:
+                ok = False
+        if ok:
+            R.ok(iid, where(f, br[0].line))
+        else:
+            R.fail(iid, where(f), Finding(R.rule, f["file"], f["q"], bound + "-operand",
+                   "the range test against %s() does not read the stored long value t_integer directly (a value narrowed to the 32-bit handle type before the test wraps around and passes)" % bound, f["line"]))
     # the bounds themselves
     W = {"4": 32, "8": 64}
     for bound, val in (("intMin", lambda w: -(1 << (w - 2))), ("intMax", lambda w: (1 << (w - 2)) - 1)):
